@@ -8,6 +8,8 @@ def mix(ctx, n_generic, n_susp, n_over, n_oom, n_par, laws=("const",), bias=None
         s = ctx.seed * 1000003
         for i in range(n_generic):
             yield gen_e.gen_generic(s + i, drv=drv, laws=laws, bias=bias)
+        for i in range(3 if n_generic else 0):
+            yield gen_e.gen_zero_tick_tail(s + 95000 + i, drv)
         for i in range(2 if (bias or {}).get("unknown_pool", 0.02) > 0 else 0):
             yield gen_e.gen_pool_number_as_text(s + 90000 + i, drv)
         for i in range(n_susp):
@@ -34,6 +36,8 @@ def mix(ctx, n_generic, n_susp, n_over, n_oom, n_par, laws=("const",), bias=None
             yield gen_e.gen_suspend_overcommitted(s + 180000 + i, drv)
         for i in range(max(n_susp // 16, 3) if n_susp else 0):
             yield gen_e.gen_opcount_midbatch(s + 190000 + i, drv, suspend_it=True)
+        for i in range(max(n_susp // 12, 4) if (n_susp and not n_over) else 0):
+            yield gen_e.gen_suspend_oversell(s + 195000 + i, drv)
         for i in range(n_par):
             yield gen_e.gen_parents(s + 400000 + i, drv)
         for i in range(max(n_par // 10, 3) if n_par else 0):
